@@ -86,7 +86,8 @@ def _transfer(mtu, mps, credits, sizes, fill, sched):
         data = bytes([fill for _ in range(n)])
         written += data
         tx.write(data)
-    steps = list(sched) + [0, 1] * 40
+    # the symbolic prefix, then alternate for as long as the transfer can need (3 frames per 1-byte SDU at MTU 1, one credit round trip per frame)
+    steps = list(sched) + [0, 1] * (4 * (sum(sizes) + len(sizes)) + 20)
     for s in steps:
         progressed = False
         if s == 0 and sent < len(tx_m.frames):
